@@ -28,6 +28,21 @@ var (
 	randCalls   int
 )
 
+// SpinCost is the virtual time a failed try-lock costs when AutoTick is on: a caller that loops on a try-lock is
+// waiting, and waiting takes time (a time-bounded spin must be able to run out of time).
+const SpinCost = 10 * time.Microsecond
+
+func init() {
+	vsched.SpinHook = spinHook
+}
+
+//go:norace
+func spinHook() {
+	if AutoTick {
+		offset += SpinCost
+	}
+}
+
 // Res is the scheduler resource standing for the clock.
 //
 //go:norace
